@@ -6,6 +6,10 @@ import (
 
 var NoExpressionsFound = fmt.Errorf("No expressions found")
 
+// MaxMacroExpansionDepth bounds how deeply macro expansions may nest
+// (the expansion of a macro call containing macro calls, and so on).
+const MaxMacroExpansionDepth = 1000
+
 type Generator struct {
 	env            *Zlisp
 	funcname       string
@@ -867,6 +871,15 @@ func (gen *Generator) GenerateCallBySymbol(sym *SexpSymbol, args []Sexp, orig Se
 	// this is where macros are run
 	macro, found := gen.env.macros[sym.number]
 	if found {
+		// a macro whose expansion contains a call of itself never stops
+		// expanding; every level is a Go recursion, and running out of Go
+		// stack is fatal to the whole process.
+		if gen.env.macroDepth >= MaxMacroExpansionDepth {
+			return fmt.Errorf("macro '%s': expansions nested more than %d deep (a macro that expands into a call of itself?)",
+				sym.name, MaxMacroExpansionDepth)
+		}
+		gen.env.macroDepth++
+		defer func() { gen.env.macroDepth-- }()
 		// calling Apply on the current environment will screw up
 		// the stack, creating a duplicate environment is safer
 		env := gen.env.Duplicate()
